@@ -326,6 +326,9 @@ func (ex *Exec) valEq(a, b Value) *Term {
 		if x.Loc != nil && y.Loc != nil {
 			return BoolC(ptrEq(*x.Loc, *y.Loc))
 		}
+		if (x.Loc != nil) != (y.Loc != nil) {
+			return False // the addressable flag differs
+		}
 		if s, isS := x.T.Underlying().(*types.Struct); isS && s.NumFields() == 0 {
 			return True
 		}
